@@ -10,6 +10,7 @@ package outbounds
 
 import (
 	"encoding/json"
+	"errors"
 	"fmt"
 	"net"
 	"runtime/debug"
@@ -84,13 +85,24 @@ func c09NewEngine(rules []c09Rule, config string) (PluggableOutbound, error) {
 	return NewACLEngineFromString(c09Text(rules), obs, nil)
 }
 
+var c09PartialErr = errors.New("c09: lookup of the other address family failed")
+
 // c09EngRun performs one request and returns "" or the violated clause, plus what was observed.
 func c09EngRun(eng PluggableOutbound, rules []c09Rule, config string, decided int, op c09EngOp) (clause, want, got string) {
 	q := op.Query
 	a := &AddrEx{Host: q.Name, Port: uint16(q.Port)}
 	var ri *ResolveInfo
+	var wantErr error
 	if q.V4 != "" || q.V6 != "" {
 		ri = &ResolveInfo{IPv4: c09EngIP(q.V4), IPv6: c09EngIP(q.V6)}
+		if (q.V4 != "") != (q.V6 != "") {
+			// a partial resolution, as the resolvers in front of the ACL produce when one of the
+			// parallel A/AAAA lookups fails: addresses AND an error. The decision is made on what
+			// was resolved (added after the independently seeded change C09-5: resolved addresses
+			// ignored whenever the resolver also reported an error, so IP/CIDR rules stopped matching).
+			ri.Err = c09PartialErr
+		}
+		wantErr = ri.Err
 		a.ResolveInfo = ri
 	}
 	c09Last = nil
@@ -139,7 +151,7 @@ func c09EngRun(eng PluggableOutbound, rules []c09Rule, config string, decided in
 	if wantHijack == "" {
 		same := s.host == q.Name && s.ri == ri
 		if same && ri != nil {
-			same = s.riCopy.IPv4.Equal(c09EngIP(q.V4)) && s.riCopy.IPv6.Equal(c09EngIP(q.V6)) && s.riCopy.Err == nil &&
+			same = s.riCopy.IPv4.Equal(c09EngIP(q.V4)) && s.riCopy.IPv6.Equal(c09EngIP(q.V6)) && s.riCopy.Err == wantErr &&
 				(s.riCopy.IPv4 == nil) == (q.V4 == "") && (s.riCopy.IPv6 == nil) == (q.V6 == "")
 		}
 		if !same {
